@@ -13,15 +13,15 @@ import (
 type timeLocation = time.Location
 
 var (
-	dateRe = `(\d{4})-(\d{2})-(\d{2})`
-	timeRe = `(\d{2}):(\d{2}):(\d{2})(\.\d{1,9})?`
-	zoneRe = `(Z|[+-]\d{2}(?::\d{2})?)`
-	reDate = regexp.MustCompile(`^` + dateRe + `$`)
-	reTime = regexp.MustCompile(`^` + timeRe + `$`)
+	dateRe   = `(\d{4})-(\d{2})-(\d{2})`
+	timeRe   = `(\d{2}):(\d{2}):(\d{2})(\.\d{1,9})?`
+	zoneRe   = `(Z|[+-]\d{2}(?::\d{2})?)`
+	reDate   = regexp.MustCompile(`^` + dateRe + `$`)
+	reTime   = regexp.MustCompile(`^` + timeRe + `$`)
 	reTimeTZ = regexp.MustCompile(`^` + timeRe + zoneRe + `$`)
-	reTS = regexp.MustCompile(`^` + dateRe + `[T ]` + timeRe + `$`)
-	reTSTZ = regexp.MustCompile(`^` + dateRe + `[T ]` + timeRe + zoneRe + `$`)
-	looksDT = regexp.MustCompile(`^[0-9 T:.Z+-]+$`)
+	reTS     = regexp.MustCompile(`^` + dateRe + `[T ]` + timeRe + `$`)
+	reTSTZ   = regexp.MustCompile(`^` + dateRe + `[T ]` + timeRe + zoneRe + `$`)
+	looksDT  = regexp.MustCompile(`^[0-9 T:.Z+-]+$`)
 )
 
 // DT is a parsed datetime: kind and wall-clock components.
